@@ -25,15 +25,28 @@ Proof. destruct op; reflexivity. Qed.
 Lemma level_le9 op : (binop_level op <= 9)%nat.
 Proof. destruct op; cbn; lia. Qed.
 
-Definition head_not_super (t : list token) : Prop :=
-  match t with c :: _ => is_simple KSuper c = false | [] => True end.
+Definition in_ok_b (t : list token) : bool :=
+  match t with
+  | c :: rest => negb (is_simple KSuper c) ||
+                 match rest with c2 :: _ => is_simple SDot c2 || is_simple SLeftBracket c2 | [] => false end
+  | [] => true
+  end.
+
+Lemma peek_in s :
+  (peek_simple KSuper 0 s && negb (peek_simple SDot 1 s) && negb (peek_simple SLeftBracket 1 s))%bool
+  = negb (in_ok_b (toks_of s)).
+Proof.
+  destruct s as [c r ex dc dm]. unfold peek_simple, peek_tok, toks_of, in_ok_b. cbn [cur rest nth_error].
+  destruct (is_simple KSuper c); destruct r as [|c2 r]; cbn; try reflexivity.
+  destruct (is_simple SDot c2), (is_simple SLeftBracket c2); reflexivity.
+Qed.
 
 Section Steps.
   Variable pexpr : P expr.
   Variable lf : nat.
   Notation PL := (pe_loop spec_prec pexpr (S lf)).
 
-  Lemma pl_rhs_op f op lhs stk t (a : expr) t' : t <> [] -> head_not_super t ->
+  Lemma pl_rhs_op f op lhs stk t (a : expr) t' : t <> [] -> in_ok_b t = true ->
     run (PL f (enter (S (binop_level op))) (SiBinaryRhs (kind (binop_level op)) lhs op :: stk)) t a t' ->
     run (PL (S f) (StBinaryRhs (kind (binop_level op)) lhs) stk) (sim (binop_tok op) :: t) a t'.
   Proof.
@@ -43,8 +56,7 @@ Section Steps.
     cbv beta iota. rewrite next_state_enter by apply level_le9.
     destruct (stoken_eqb (binop_tok op) KIn) eqn:Ein; [|exact H].
     apply run_if_false; [|exact H].
-    intros s Es. destruct t as [|c1 r1]; [congruence|]. unfold toks_of in Es. injection Es as Ec Er.
-    unfold peek_simple, peek_tok. rewrite Ec. cbn in Hs. rewrite Hs. reflexivity.
+    intros s Es. rewrite peek_in, Es, Hs. reflexivity.
   Qed.
 
   Lemma pl_rhs_insuper f lhs stk c t (a : expr) t' : expr_span lhs = sp0 -> nosfx c = true ->
@@ -151,6 +163,8 @@ Fixpoint core_expr (e : expr) : bool :=
   match e with
   | ENull _ | EBool _ _ | ESelf _ | EDollar _ | EString _ _ | ETextBlock _ _ | ENumber _ _ | EIdent _ _ => true
   | EParen _ x => core_expr x
+  | ESuperField _ _ _ => true
+  | ESuperIndex _ _ i => core_expr i
   | EUnary _ _ x => core_expr x
   | EBinary _ l _ r => core_expr l && core_expr r
   | EInSuper _ x _ => core_expr x
@@ -185,20 +199,20 @@ Fixpoint core_expr (e : expr) : bool :=
   | _ => false
   end.
 
-(* the first printed token of a covered tree starts an expression and is not `super` *)
+(* the first printed token of a covered tree starts an expression *)
 Ltac split_and H :=
   repeat match type of H with
          | (_ && _)%bool = true => let H2 := fresh "Hc" in apply andb_true_iff in H as [H H2]
          end.
 
 Lemma core_head e : core_expr e = true ->
-  exists c r, print_expr e = c :: r /\ (is_simple KSuper c = false /\ starter c = true).
+  exists c r, print_expr e = c :: r /\ (True /\ starter c = true).
 Proof.
   induction e; cbn [core_expr]; intros H; try discriminate;
-    try (eexists; eexists; split; [reflexivity|split; reflexivity]);
-    try (destruct b; (eexists; eexists; split; [reflexivity|split; reflexivity]));
-    try (destruct op; (eexists; eexists; split; [reflexivity|split; reflexivity]));
-    try (destruct a; (eexists; eexists; split; [reflexivity|split; reflexivity]));
+    try (eexists; eexists; split; [reflexivity|split; [exact I|reflexivity]]);
+    try (destruct b; (eexists; eexists; split; [reflexivity|split; [exact I|reflexivity]]));
+    try (destruct op; (eexists; eexists; split; [reflexivity|split; [exact I|reflexivity]]));
+    try (destruct a; (eexists; eexists; split; [reflexivity|split; [exact I|reflexivity]]));
     split_and H; cbn [print_expr];
     match goal with
     | |- exists c r, print_expr ?x ++ _ = _ /\ _ =>
@@ -243,6 +257,28 @@ Proof.
         match goal with
         | IH : core_expr x = true -> _ |- _ =>
             rewrite <- app_assoc; cbn [app]; apply (IH H); reflexivity
+        end
+    end.
+Qed.
+
+
+(* a printed expression after `in` is never the bare keyword `super` *)
+Lemma in_ok_single c t : is_simple KSuper c = false -> in_ok_b (c :: t) = true.
+Proof. intros H. cbn. rewrite H. reflexivity. Qed.
+
+Lemma core_in_ok e : core_expr e = true -> forall t, in_ok_b (print_expr e ++ t) = true.
+Proof.
+  induction e; cbn [core_expr]; intros H t; try discriminate;
+    try (cbn [print_expr print_assert app]; apply in_ok_single; reflexivity);
+    try (cbn [print_expr print_assert app]; reflexivity);
+    try (destruct b; cbn [print_expr print_assert app]; apply in_ok_single; reflexivity);
+    try (destruct op; cbn [print_expr print_assert app]; apply in_ok_single; reflexivity);
+    try (destruct a; cbn [print_expr print_assert app]; apply in_ok_single; reflexivity);
+    split_and H; cbn [print_expr];
+    match goal with
+    | |- in_ok_b ((print_expr ?x ++ _) ++ _) = true =>
+        match goal with
+        | IH : core_expr x = true -> _ |- _ => rewrite <- app_assoc; apply (IH H)
         end
     end.
 Qed.
@@ -1017,6 +1053,25 @@ Proof.
     change (match c with Some c' => sim SColon :: print_expr c' | None => [] end) with (ctoks c).
     apply (run_slice pexpr _ Hp); try assumption; try apply strip_span0;
       [destruct a; cbn [olen]; len_tac|destruct b; cbn [olen]; len_tac|destruct c; cbn [olen]; len_tac].
+  - (* ESuperField *)
+    exists 3%nat, 0%nat. split; [cbn [print_expr List.length]; lia|]. split; [lia|].
+    intros pexpr lf f stk rest R t' X tf _ _ Hr _ H1 H2. cbn [print_expr strip_spans app Nat.add].
+    apply pl_unary_miss; [reflexivity|]. apply pl_primary_super; [discriminate|].
+    eapply run_orelse_hit; [apply run_eat_hit; [reflexivity|discriminate]|].
+    eapply run_bind; [unfold id_tok, tk; apply run_expect_ident_hit; exact Hr|].
+    eapply run_bind; [apply run_mk_span0|].
+    rewrite Nat.sub_0_r in H1. eapply pl_parsed_suffix_gen; [exact H1|exact H2].
+  - (* ESuperIndex *)
+    cbn [wpx] in Hwp.
+    exists 3%nat, 0%nat. split; [len_tac|]. split; [lia|].
+    intros pexpr lf f stk rest R t' X tf Hp _ Hr _ H1 H2. cbn [print_expr strip_spans]. norm_app. cbn [Nat.add].
+    apply pl_unary_miss; [reflexivity|]. apply pl_primary_super; [discriminate|].
+    eapply run_orelse_miss; [apply run_eat_miss; reflexivity|].
+    eapply run_orelse_hit; [apply run_eat_hit; [reflexivity|auto with rt]|].
+    eapply run_bind; [apply Hp; [exact Hcore|exact Hwp|len_tac|reflexivity|intros _; reflexivity]|].
+    eapply run_bind; [apply run_expect_hit; [reflexivity|exact Hr]|].
+    eapply run_bind; [apply run_mk_span0|].
+    rewrite Nat.sub_0_r in H1. eapply pl_parsed_suffix_gen; [exact H1|exact H2].
   - (* ECall *)
     cbn [wpx] in Hwp. cbn [esize] in Hsz. apply andb_true_iff in Hwp as [Hwx Hwa].
     apply andb_true_iff in Hcore as [Hcx Hca].
@@ -1113,6 +1168,8 @@ Proof.
   - (* EField *) apply (suffix_case n IH); [cbn [esize] in *; lia|exact Hcore|exact Hwp|exact Hk].
   - (* EIndex *) apply (suffix_case n IH); [cbn [esize] in *; lia|exact Hcore|exact Hwp|exact Hk].
   - (* ESlice *) apply (suffix_case n IH); [cbn [esize] in *; lia|exact Hcore|exact Hwp|exact Hk].
+  - (* ESuperField *) apply (suffix_case n IH); [cbn [esize] in *; lia|exact Hcore|exact Hwp|exact Hk].
+  - (* ESuperIndex *) apply (suffix_case n IH); [cbn [esize] in *; lia|exact Hcore|exact Hwp|exact Hk].
   - (* ECall *) apply (suffix_case n IH); [cbn [esize] in *; lia|exact Hcore|exact Hwp|exact Hk].
   - (* ELocal *)
     cbn [esize] in Hsz.
@@ -1211,8 +1268,7 @@ Proof.
               |intros _; destruct op; reflexivity|].
     unfold exit_. replace (j <? 10)%nat with true by (symmetry; apply Nat.ltb_lt; lia).
     cbn [Nat.add].
-    destruct (core_head e2 Hc2) as (ch & rh & Eh & Hh & _).
-    apply pl_rhs_op; [auto with rt| rewrite Eh; exact Hh |].
+    apply pl_rhs_op; [auto with rt| apply core_in_ok; exact Hc2 |].
     apply H2; [eapply pexpr_ok_mono; [exact Hp|len_tac]| revert Hlf; len_tac
               | destruct last; cbn in Hfc |- *; [exact Hfc|split; [tauto|apply (noop_above_mono k); [tauto|lia]]]
               | exact Hel |].
